@@ -98,6 +98,8 @@ type world struct {
 	emitted    map[string]bool       // every cookie value the deployment ever emitted (name=value)
 	allRandoms map[string]string     // random value -> kind (distinctness oracle)
 	pendingAnswer *tokenAnswer
+	answerByCode map[string]tokenAnswer // concurrent batches: the provider's answer per authorization code
+	schedInfo  *scheduler
 	born       map[string]int64 // "browser/name" -> unix time the cookie value was set (securecookie rejects values older than 30 days)
 	rng        *mrand.Rand
 	actualExchange *tokenAnswer
@@ -138,7 +140,7 @@ func s256(v string) string {
 
 func newWorld(sc int, rng interface{ Intn(int) int }) *world {
 	w := &world{sc: sc, syms: map[string]string{}, toks: map[string]*hTok{}, lastInit: map[int]*initRec{}, allInits: map[int][]*initRec{}, codes: map[string]*issuedCode{},
-		loggedIn: map[int]bool{}, tampered: map[int]bool{}, loginTok: map[int]*hTok{}, loginAt: map[int]int64{}, emitted: map[string]bool{}, allRandoms: map[string]string{}, rtOf: map[int]string{}, loggedOut: map[int]bool{}, jtiSeen: map[string]bool{}, born: map[string]int64{}}
+		loggedIn: map[int]bool{}, tampered: map[int]bool{}, loginTok: map[int]*hTok{}, loginAt: map[int]int64{}, emitted: map[string]bool{}, allRandoms: map[string]string{}, rtOf: map[int]string{}, loggedOut: map[int]bool{}, jtiSeen: map[string]bool{}, born: map[string]int64{}, answerByCode: map[string]tokenAnswer{}}
 	w.p = newProvider(keys()["p256a"], keys()["rsa2048a"])
 	w.pkce = rng.Intn(2) == 0
 	w.force = rng.Intn(3) == 0
@@ -225,6 +227,9 @@ func (w *world) exchange1(form url.Values) tokenAnswer {
 		return tokenAnswer{kind: "4xx", desc: "pkce"}
 	}
 	c.used = true
+	if a, ok := w.answerByCode[c.code]; ok {
+		return a
+	}
 	pending := w.pendingAnswer
 	if pending != nil {
 		return *pending
@@ -448,12 +453,12 @@ func (w *world) noteRandom(v, kind string) {
 }
 
 
-func (w *world) do(rs reqSpec) M {
+// prep builds the request of the current browser as Go's HTTP server would deliver it
+func (w *world) prep(rs *reqSpec) (*http.Request, [][]string) {
 	if rs.method == "" {
 		rs.method = "GET"
 	}
 	j := w.jars[w.b]
-	inst, d := w.insts[w.cur], w.downs[w.cur]
 	// cookies older than securecookie's 30-day limit are undecodable: tell the model (abstraction of the timestamp check)
 	for n := range j {
 		k := fmt.Sprintf("%d/%s", w.b, n)
@@ -469,7 +474,7 @@ func (w *world) do(rs reqSpec) M {
 	r, err := http.ReadRequest(bufio.NewReader(strings.NewReader(rs.method + " " + rs.rawURI + " HTTP/1.1\r\nHost: app.test\r\n\r\n")))
 	if err != nil {
 		T.stat("handler.unparsable-target")
-		return nil
+		return nil, nil
 	}
 	r.RemoteAddr = "192.0.2.1:1234"
 	if rs.accept != "" {
@@ -506,6 +511,15 @@ func (w *world) do(rs reqSpec) M {
 		}
 	}
 	j.addTo(r)
+	return r, clientHdrs
+}
+
+func (w *world) do(rs reqSpec) M {
+	r, clientHdrs := w.prep(&rs)
+	if r == nil {
+		return nil
+	}
+	inst, d := w.insts[w.cur], w.downs[w.cur]
 	w.pendingAnswer = rs.exchange
 	w.actualExchange = nil
 	w.p.onRefresh = func(url.Values) tokenAnswer {
@@ -526,6 +540,17 @@ func (w *world) do(rs reqSpec) M {
 		}()
 		inst.ServeHTTP(rec, r)
 	}()
+	calls := w.p.takeCalls()
+	return w.observe(rs, r, clientHdrs, rec, panicked, calls, d.calls-before, d.hdrs, w.actualExchange)
+}
+
+// observe turns one served request into a step for the model (canonical observation) and evaluates the oracles
+func (w *world) observe(rs reqSpec, r *http.Request, clientHdrs [][]string, rec *httptest.ResponseRecorder, panicked string, calls []M, downCalls int, downHdrs http.Header, actualExchange *tokenAnswer) M {
+	j := w.jars[w.b]
+	d := &down{hdrs: downHdrs}
+	if d.hdrs == nil {
+		d.hdrs = http.Header{}
+	}
 	setCookies := rec.Header()["Set-Cookie"]
 	for _, line := range setCookies {
 		w.checkCookieLine(line, rs)
@@ -540,7 +565,6 @@ func (w *world) do(rs reqSpec) M {
 			w.born[fmt.Sprintf("%d/%s", w.b, c.Name)] = time.Now().Unix()
 		}
 	}
-	calls := w.p.takeCalls()
 
 	// ------------------------------------------------------------------ canonical observation
 	path, query := r.URL.Path, r.URL.Query()
@@ -552,8 +576,8 @@ func (w *world) do(rs reqSpec) M {
 	}
 	obs := M{}
 	loc := rec.Header().Get("Location")
-	forwarded := d.calls > before
-	obs["down"] = d.calls - before
+	forwarded := downCalls > 0
+	obs["down"] = downCalls
 	ct := rec.Header().Get("Content-Type")
 	body := rec.Body.String()
 	switch {
@@ -663,7 +687,7 @@ func (w *world) do(rs reqSpec) M {
 	if rs.xfHost != "" {
 		host = rs.xfHost
 	}
-	exA, rfA := ansJSON(w, w.actualExchange, calls, "exchange"), ansJSON(w, rs.refresh, calls, "refresh")
+	exA, rfA := ansJSON(w, actualExchange, calls, "exchange"), ansJSON(w, rs.refresh, calls, "refresh")
 	var execT interface{}
 	{ // template results for the tokens that can be forwarded at this step: the stored one and a refreshed one
 		tab := M{}
